@@ -3,7 +3,7 @@ import os
 
 import numpy as np
 
-from .. import env, core, gen, synth, spec, symcodec, view, histcorr
+from .. import derivedcorr, env, core, gen, synth, spec, symcodec, view, histcorr
 from seismic_zfp.conversion import SgzConverter  # noqa: E402
 
 ASSUMPTIONS = ["symbolic decoder: 'bitwise identical on every real voxel' is a statement about which source unit each output "
@@ -101,6 +101,7 @@ def run_(ctx, model):
                 ctx.fail(f're-block of a supported file failed: {type(e).__name__}: {str(e)[:120]}', desc)
                 continue
             model_units(ctx, model, fi, out, desc)
+            derivedcorr.check_reblock(ctx, model, fi.path, out, desc)   # K: Model/Derived.reblockHeader, the 19 header words
             probs = spec.conformance_problems(out)
             h, _ = spec.read_header(out)
             if h.bs != (64, 64, 4):
